@@ -140,7 +140,14 @@ def on_error_names_oid(ck: Checker, rule: str) -> None:
     transfer's failure set is keyed by - not by its path in the store."""
     fn = ck.prog.func("hashfile.db", "HashFileDB.add")
     g = ck.cfg(fn)
-    reps = [(n, c) for n in g.nodes.values() for c in calls_at(n) if isinstance(c.func, ast.Name) and c.func.id == "on_error" and n.loops]
+    from ..an import value_alts as _va
+
+    def _is_report(n, c) -> bool:
+        # on_error(...) itself, or a local that stands for it (`cb = None if already_failed else on_error`)
+        return isinstance(c.func, ast.Name) and (c.func.id == "on_error" or (not fn.has_param(c.func.id) and c.func.id not in fn.children
+                                                                              and any(isinstance(a_, ast.Name) and a_.id == "on_error" for a_ in _va(g, n, c.func, depth=3))))
+
+    reps = [(n, c) for n in g.nodes.values() for c in calls_at(n) if _is_report(n, c) and n.loops]
     ck.floor(rule, len(reps), 1, "on_error calls in the post-copy loop of HashFileDB.add")
     for n, c in reps:
         h = g.nodes[n.loops[-1]]
@@ -252,7 +259,8 @@ def failed_copy_never_trusted(ck: Checker, rule: str) -> None:
             if isinstance(x, ast.Call) and is_method_call(x, "add") and x.args and isinstance(x.args[0], ast.Name) and child.has_param(x.args[0].id) and isinstance(x.func.value, ast.Name):
                 failed.add(x.func.value.id)
     sup = [c for n in g.nodes.values() for c in calls_at(n) if isinstance(c.func, ast.Attribute) and c.func.attr == "add" and norm(c.func.value).startswith("super(")]
-    wrapped = any(isinstance(k.value, ast.Name) and k.value.id in fn.children for c in sup for k in c.keywords if k.arg == "on_error")
+    # the wrapper is what the delegated add reports to (possibly `None if on_error is None else wrapper`)
+    wrapped = any(any(isinstance(x, ast.Name) and x.id in fn.children for x in walk_expr(k.value)) for c in sup for k in c.keywords if k.arg == "on_error")
     prots = [n for n in g.nodes.values() for c in calls_at(n) if is_method_call(c, "protect") and norm(c.func.value) == "self" and n.loops]
     ck.floor(rule, len(prots), 1, "per-object protect in HashFileDB.add")
     for n in prots:
@@ -268,7 +276,10 @@ def failed_copy_never_trusted(ck: Checker, rule: str) -> None:
                 return (isinstance(e.ops[0], ast.In) and lab == "F") or (isinstance(e.ops[0], ast.NotIn) and lab == "T")
             return False
 
-        r = g.reach([d for lab, d in h.succ if lab == "T"], skip_node=lambda x: x.id in chk, skip_edge=not_failed)
+        from ..an import with_flags as _wf
+
+        lifted = _wf(g, lambda a, lab: lab != "exc" and not_failed(a, lab, None), start=h.id)
+        r = g.reach([d for lab, d in h.succ if lab == "T"], skip_node=lambda x: x.id in chk, skip_edge=lambda a, lab, b: not_failed(a, lab, b) or lifted(a, lab))
         ok = bool(failed) and wrapped and n.id not in r
         ck.require(ok, rule, fn, n, "an object whose copy was reported as failed is re-hashed before it may be protected",
                    "an object whose copy was reported as failed can still be write-protected without being re-hashed (verification off): a truncated download that the copy left under the object's final name becomes a trusted object that no later integrity check examines",
